@@ -72,9 +72,65 @@ let string_of_msg m =
     (dec_n m.m_nan) (dec_n m.m_nns) (dec_n m.m_nar) qs (string_of_rrs m.m_answers)
     (string_of_rrs m.m_authorities) (string_of_rrs m.m_additionals)
 
+(* ---- outgoing messages (enc / encdec cases) ---- *)
+let n_of_string s = n_of_int (int_of_string s)
+(* 64-bit capable decimal -> N (created / now can exceed OCaml's 63-bit int only in theory) *)
+let n_of_dec (s : string) : n =
+  let rec go acc i = if i >= String.length s then acc
+    else go (N.add (N.mul acc (n_of_int 10)) (n_of_int (Char.code s.[i] - 48))) (i + 1) in
+  go N0 0
+let split_on c s = String.split_on_char c s
+let parse_rdata (s : string) : rdata =
+  match String.index_opt s ':' with
+  | None -> failwith "rdata"
+  | Some i ->
+    let k = String.sub s 0 i and v = String.sub s (i + 1) (String.length s - i - 1) in
+    (match k with
+     | "A" -> RAddr (bytes_of_hex v)
+     | "P" -> RPtr (bytes_of_hex v)
+     | "S" -> (match split_on ',' v with
+         | [ p; w; po; h ] -> RSrv (n_of_dec p, n_of_dec w, n_of_dec po, bytes_of_hex h)
+         | _ -> failwith "srv")
+     | "T" -> RTxt (bytes_of_hex v)
+     | "H" -> (match split_on ',' v with [ a; b ] -> RHinfo (bytes_of_hex a, bytes_of_hex b) | _ -> failwith "hinfo")
+     | "N" -> (match split_on ',' v with [ a; b ] -> RNsec (bytes_of_hex a, bytes_of_hex b) | _ -> failwith "nsec")
+     | _ -> failwith "rdata kind")
+let parse_orec (s : string) : orec =
+  match split_on '/' s with
+  | [ name; nn; ty; cls; fl; ttl; created; rd ] ->
+    { or_rr = { r_name = bytes_of_hex name; r_type = n_of_dec ty; r_class = N.coq_land (n_of_dec cls) (n_of_int 32767);
+                r_flush = (fl = "1"); r_ttl = n_of_dec ttl; r_data = parse_rdata rd };
+      or_newname = (if nn = "~" then None else Some (bytes_of_hex nn));
+      or_created = n_of_dec created }
+  | _ -> failwith "orec"
+let plist pre s =
+  let n = String.length pre in
+  let s = if String.length s >= n && String.sub s 0 n = pre then String.sub s n (String.length s - n) else s in
+  if s = "-" then [] else split_on ';' s
+let parse_outgoing (t : string list) : outgoing =
+  match t with
+  | [ flags; id; mc; q; an; ns; ar ] ->
+    { og_flags = n_of_dec flags; og_id = n_of_dec id; og_multicast = (mc = "1");
+      og_questions = List.map (fun x -> match split_on ',' x with [ n; ty ] -> (bytes_of_hex n, n_of_dec ty) | _ -> failwith "q") (plist "q=" q);
+      og_answers = List.map (fun x -> match split_on '@' x with [ r; now ] -> (parse_orec r, n_of_dec now) | _ -> failwith "an") (plist "an=" an);
+      og_authorities = List.map parse_orec (plist "ns=" ns);
+      og_additionals = List.map parse_orec (plist "ar=" ar) }
+  | _ -> failwith "outgoing"
+let string_of_table (t : (n list list * n) list) : string =
+  if t = [] then "-" else
+  let items = List.map (fun (k, v) -> (List.map int_of_n (key_string k), int_of_n v)) t in
+  let items = List.sort compare items in
+  String.concat "," (List.map (fun (k, v) ->
+    (if k = [] then "-" else String.concat "" (List.map (Printf.sprintf "%02x") k)) ^ "=" ^ string_of_int v) items)
+
 let run_case (line : string) : string =
   match String.split_on_char ' ' line with
   | [ "dec"; b ] -> res_to_string string_of_msg (decode (bytes_of_hex b))
+  | ("enc" | "encdec") :: rest ->
+    res_to_string (fun l -> String.concat " ## " (List.map (fun (d, t) ->
+        hex_of_bytes d ^ "@" ^ string_of_table t ^ "@" ^
+        (match decode d with Ok m -> string_of_msg m | Err -> "ERR" | Panic -> "PANIC" | OutOfFuel -> "HANG")) l))
+      (to_packets_tables (parse_outgoing rest))
   | [ "txt_new"; ps ] ->
     res_to_string
       (fun (stored, b) -> string_of_props stored ^ " " ^ hex_of_bytes b)
@@ -173,6 +229,52 @@ let mon_c01 (case : string list) (result : string) : string =
     else "FAIL decoding did not end with a message or an error: " ^ result
   | _ -> "BADCASE"
 
+(* C02: chk_C02 (extracted) on the implementation's packets; the crate decoder's reading of
+   each packet against the reference parser's *)
+let split_str (sep : string) (s : string) : string list =
+  let n = String.length sep in
+  let rec go acc start i =
+    if i + n > String.length s then List.rev (String.sub s start (String.length s - start) :: acc)
+    else if String.sub s i n = sep then go (String.sub s start (i - start) :: acc) (i + n) (i + n)
+    else go acc start (i + 1) in
+  go [] 0 0
+
+let expected_decode (p : n list) : string option =
+  match ref_parse p with
+  | None -> None
+  | Some rm ->
+    let resp = N.eqb (N.coq_land rm.fm_flags (n_of_int 32768)) (n_of_int 32768) in
+    (match opt_rrs resp rm.fm_answers, opt_rrs resp rm.fm_authorities, opt_rrs resp rm.fm_additionals with
+     | Some a, Some ns, Some ar ->
+       let hdr i = match ref_u16 p (n_of_int i) with Some v -> v | None -> N0 in
+       Some (string_of_msg { m_id = rm.fm_id; m_flags = rm.fm_flags; m_nq = hdr 4; m_nan = hdr 6; m_nns = hdr 8; m_nar = hdr 10;
+                             m_questions = List.map present_q rm.fm_questions; m_answers = a; m_authorities = ns; m_additionals = ar })
+     | _ -> None)
+
+let mon_c02 (case : string list) (result : string) : string =
+  match case with
+  | ("enc" | "encdec") :: rest ->
+    let m = parse_outgoing rest in
+    if not (wf_out m) then "PASS outside-quantifier"
+    else if not (starts_with result "OK ") then "FAIL encoding a well-formed message: " ^ result
+    else begin
+      let parts = split_str " ## " (String.sub result 3 (String.length result - 3)) in
+      let triples = List.map (fun s -> match String.split_on_char '@' s with
+          | [ h; _; d ] -> (bytes_of_hex h, d) | _ -> failwith "packet format") parts in
+      let pkts = List.map fst triples in
+      let fit = fits m in
+      if not (chk_C02 m pkts) then
+        (if fit then "FAIL packets do not parse back to what was added" else "FAIL[nofit] question section exceeds one packet")
+      else begin
+        let utf8_ok = List.for_all (fun (q, _) -> List.for_all utf8_valid (name_labels q)) m.og_questions in
+        let bad = List.exists (fun (p, d) -> match expected_decode p with
+            | Some e -> utf8_ok && e <> d && d <> "ERR-nonutf8"
+            | None -> false) triples in
+        if bad then "FAIL crate decoder reads different content" else "PASS"
+      end
+    end
+  | _ -> "BADCASE"
+
 let run_monitor (line : string) : string =
   (* "mon <ID> <case...> => <result...>" *)
   let sep = " => " in
@@ -187,6 +289,7 @@ let run_monitor (line : string) : string =
       (match id with
        | "C16" -> mon_c16 case result
        | "C01" -> mon_c01 case result
+       | "C02" -> mon_c02 case result
        | _ -> "BADCASE")
      with _ -> "BAD monitor exception")
   | _ -> "BADCASE"
